@@ -57,6 +57,19 @@ func genCase(t *rapid.T) Case {
 		}
 		forEachCoord(g, shift)
 	}
+	// the whole geometry moved to another magnitude by an exact power of two (products
+	// of two ordinates stay finite and normal up to 2^+-500): measures scale with it
+	if rapid.IntRange(0, 4).Draw(t, "scaled") == 0 {
+		k := rapid.SampledFrom([]int{300, -300, 150, -150, 60, -60}).Draw(t, "exp")
+		if rapid.Bool().Draw(t, "expany") {
+			k = rapid.IntRange(-300, 300).Draw(t, "expv")
+		}
+		forEachCoord(g, func(c []model.F) {
+			for i := range c {
+				c[i] = model.Of(math.Ldexp(c[i].V(), k))
+			}
+		})
+	}
 	// rings closed by construction (a 1-point ring may stay a single point)
 	single := rapid.Bool().Draw(t, "keepSingle")
 	cl := func(r [][]model.F) [][]model.F {
